@@ -9,6 +9,7 @@
 pub mod known;
 pub mod stubs;
 pub mod ref_annexb;
+pub mod ref_av1;
 pub mod bx;
 pub mod fin;
 pub mod apistep;
@@ -23,6 +24,8 @@ pub mod p_c03;
 pub mod p_c04;
 #[cfg(all(kani, feature = "c06"))]
 pub mod p_c06;
+#[cfg(all(kani, any(feature = "c07", feature = "c12")))]
+pub mod p_c07;
 #[cfg(all(kani, feature = "c08"))]
 pub mod p_c08;
 #[cfg(all(kani, any(feature = "c10", feature = "c11")))]
@@ -39,7 +42,7 @@ pub mod p_c15;
 pub mod p_c16;
 #[cfg(all(kani, feature = "c18"))]
 pub mod p_c18;
-#[cfg(all(kani, feature = "c19"))]
+#[cfg(all(kani, any(feature = "c19", feature = "c07")))]
 pub mod p_c19;
 
 #[cfg(kani)]
